@@ -73,16 +73,16 @@ UIS == Union(<<Case("int32", P("int32")), Case("string", P("string"))>>, FALSE) 
 UISn == Union(<<Case("int32", P("int32")), Case("string", P("string"))>>, TRUE)
 UFD == Union(<<Case("float32", P("float32")), Case("float64", P("float64"))>>, FALSE)      \* written with tags
 UnionsOfAliasedUnions ==
-  { Union(<<Case("float32", P("float32")), Case("inner", Alias(UIS))>>, FALSE),      \* number vs {number, string}: tagged
-    Union(<<Case("bool", P("bool")), Case("inner", Alias(UIS))>>, TRUE),             \* boolean vs {number, string}: untagged
-    Union(<<Case("bool", P("bool")), Case("inner", Alias(UISn))>>, FALSE),           \* inner may be null
-    Union(<<Case("bool", P("bool")), Case("inner", Alias(UISn))>>, TRUE),            \* both may be null
-    Union(<<Case("string", P("string")), Case("inner", Alias(UFD))>>, FALSE),        \* string vs object: untagged outside, tagged inside
-    Union(<<Case("rec", R2), Case("inner", Alias(UFD))>>, FALSE),                    \* object vs object: tagged twice
-    Union(<<Case("int32", P("int32")), Case("maybe", Alias(Opt(P("string"))))>>, FALSE),
-    Union(<<Case("string", P("string")), Case("maybe", Alias(Opt(P("string"))))>>, TRUE),
-    Vec(Union(<<Case("bool", P("bool")), Case("inner", Alias(UIS))>>, FALSE)),
-    Rec(<< Field("a", P("int8")), Field("u", Union(<<Case("float32", P("float32")), Case("inner", Alias(UISn))>>, TRUE)) >>) }
+  { Union(<<Case("float32", P("float32")), Case("innerIS", Alias(UIS))>>, FALSE),      \* number vs {number, string}: tagged
+    Union(<<Case("bool", P("bool")), Case("innerIS", Alias(UIS))>>, TRUE),             \* boolean vs {number, string}: untagged
+    Union(<<Case("bool", P("bool")), Case("innerISn", Alias(UISn))>>, FALSE),           \* inner may be null
+    Union(<<Case("bool", P("bool")), Case("innerISn", Alias(UISn))>>, TRUE),            \* both may be null
+    Union(<<Case("string", P("string")), Case("innerFD", Alias(UFD))>>, FALSE),        \* string vs object: untagged outside, tagged inside
+    Union(<<Case("rec", R2), Case("innerFD", Alias(UFD))>>, FALSE),                    \* object vs object: tagged twice
+    Union(<<Case("int32", P("int32")), Case("maybeS", Alias(Opt(P("string"))))>>, FALSE),
+    Union(<<Case("string", P("string")), Case("maybeS", Alias(Opt(P("string"))))>>, TRUE),
+    Vec(Union(<<Case("bool", P("bool")), Case("innerIS", Alias(UIS))>>, FALSE)),
+    Rec(<< Field("a", P("int8")), Field("u", Union(<<Case("float32", P("float32")), Case("innerISn", Alias(UISn))>>, TRUE)) >>) }
 NamedTypes == UnionsOfAliasedUnions \cup RNamed \cup PodContainers \cup AliasedAt \cup ContainersOfUnionish \cup UnionsOfContainers \cup { RGenU, Vec(RGenU), RPod, RPod2, E3, EU8, EI64, F3, FU64, R2, ROpt, REmpty, Alias(P("int32")), Alias(P("string")), Alias(Vec(P("float32"))) }
 
 KeyTypes == { P("string"), P("int32"), P("uint64"), P("int8"), Alias(P("string")) }
